@@ -132,3 +132,30 @@ def rigid(rng, *polys_and_normals):
     for k, x in enumerate(polys_and_normals):
         out.append(x @ R.T + t if x.ndim == 2 else R @ x)
     return out
+
+
+def far_canted_pair(rng):
+    """Two small perpendicular rectangles (0.3-0.8 m, detached) as in a large hall: parallel to the
+    coordinate planes but for a cant of 1-3 degrees about one axis, 15-30 m from the origin."""
+    a = float(rng.uniform(0.3, 0.6))
+    b = a * float(rng.uniform(0.7, 1.4))
+    Pi = np.array([[0, 0, 0], [a, 0, 0], [a, b, 0], [0, b, 0.]])
+    c = float(rng.uniform(0.3, 0.6))
+    d = c * float(rng.uniform(0.7, 1.4))
+    x0 = a + float(rng.uniform(0.3, 0.8))
+    Pj = np.array([[x0, 0, 0.1], [x0, 0, 0.1 + d], [x0, c, 0.1 + d], [x0, c, 0.1]])
+    ni = np.array([0, 0, 1.])
+    nj = np.cross(Pj[1] - Pj[0], Pj[2] - Pj[0])
+    nj = nj / np.linalg.norm(nj)
+    if nj[0] > 0:
+        Pj = Pj[::-1].copy()
+        nj = -nj
+    ang = np.deg2rad(float(rng.uniform(1, 3)))
+    ax = int(rng.integers(0, 3))
+    cs, sn = np.cos(ang), np.sin(ang)
+    R = np.eye(3)
+    a1, a2 = [q for q in range(3) if q != ax]
+    R[a1, a1], R[a1, a2], R[a2, a1], R[a2, a2] = cs, -sn, sn, cs
+    t = rng.uniform(15, 30, size=3) * rng.choice([-1., 1.], size=3)
+    return Pi @ R.T + t, R @ ni, Pj @ R.T + t, R @ nj
+
